@@ -181,3 +181,157 @@ vharness! {
         vcover!(max_cap == 0 && max_size != 0, "size limit only");
     }
 }
+
+// ---- service level: InFlightServiceImpl::{ready, call} gating (real async code, polled by hand) ----
+use ntex_service::Pipeline;
+use std::future::Future;
+use std::rc::Rc;
+use std::task::Poll;
+
+#[derive(Clone, Copy, PartialEq)]
+enum Kind { Other, Publish, Chunk }
+struct Req { kind: Kind, size: u32 }
+impl SizedRequest for Req {
+    fn size(&self) -> u32 { self.size }
+    fn is_publish(&self) -> bool { self.kind == Kind::Publish }
+    fn is_chunk(&self) -> bool { self.kind == Kind::Chunk }
+}
+/// the wrapped service: a handler invocation stays pending until the gate opens; payload chunks are
+/// consumed at once (the dispatcher feeds them to the payload reader and returns)
+struct Gate { open: Cell<bool>, running: Cell<u32>, peak: Cell<u32> }
+struct GateSvc(Rc<Gate>);
+impl Service<Req> for GateSvc {
+    type Response = ();
+    type Error = ();
+    async fn call(&self, req: Req, _ctx: ServiceCtx<'_, Self>) -> Result<(), ()> {
+        if req.kind == Kind::Chunk {
+            return Ok(());
+        }
+        let g = &self.0;
+        g.running.set(g.running.get() + 1);
+        if g.running.get() > g.peak.get() {
+            g.peak.set(g.running.get());
+        }
+        std::future::poll_fn(|_cx| if g.open.get() { Poll::Ready(()) } else { Poll::Pending }).await;
+        g.running.set(g.running.get() - 1);
+        Ok(())
+    }
+}
+fn poll1<F: Future>(f: std::pin::Pin<&mut F>, cx: &mut Context<'_>) -> Poll<F::Output> {
+    f.poll(cx)
+}
+fn new_gate() -> Rc<Gate> {
+    Rc::new(Gate { open: Cell::new(false), running: Cell::new(0), peak: Cell::new(0) })
+}
+
+vharness! {
+    //@ props: C12
+    //@ tier: quick
+    //@ functions: inflight::InFlightServiceImpl::{new, ready, call}, Counter::{get, is_available, available}, CounterGuard, ntex_service call/ready protocol (model of Pipeline), LocalWaker (real source)
+    //@ bounds: max_cap in 1..=2, max_size: usize and request sizes: u32 full width; two NON-publish requests with gated handlers, then completion of the first
+    //@ assumes: wrapped service always ready; one caller (the connection's read loop)
+    //@ desc: service-level gating for ordinary packets: readiness before each request equals the documented predicate over the invocations still running (reading stops rather than exceed the limits), never more than cap handlers at once, and when a handler finishes the parked reader is woken and readiness returns
+    fn ct_gate_other() unwind(4) {
+        let max_cap = vk::any_u16();
+        vk::assume(max_cap >= 1 && max_cap <= 2);
+        let max_size = vk::any_usize();
+        let s1 = vk::any_u32();
+        let s2 = vk::any_u32();
+        let gate = new_gate();
+        let p = Pipeline::new(InFlightServiceImpl::new(max_cap, max_size, GateSvc(gate.clone())));
+        let wakes: &'static Cell<u32> = Box::leak(Box::new(Cell::new(0)));
+        let waker = counting_waker(wakes);
+        let mut cx = Context::from_waker(&waker);
+        let z = |s: u32| if max_size > 0 { s as usize } else { 0 };
+        // request 1
+        {
+            let mut r = std::pin::pin!(p.ready::<Req>());
+            assert!(poll1(r.as_mut(), &mut cx).is_ready());
+        }
+        let mut f1 = std::pin::pin!(p.call(Req { kind: Kind::Other, size: s1 }));
+        assert!(poll1(f1.as_mut(), &mut cx).is_pending());
+        assert!(gate.running.get() == 1);
+        // request 2: admitted iff the counter says so
+        let avail1 = spec_available(max_cap, 1, max_size, z(s1));
+        let mut r2 = std::pin::pin!(p.ready::<Req>());
+        let ready2 = poll1(r2.as_mut(), &mut cx).is_ready();
+        assert!(ready2 == avail1, "readiness differs from the documented limit predicate");
+        if ready2 {
+            let mut f2 = std::pin::pin!(p.call(Req { kind: Kind::Other, size: s2 }));
+            assert!(poll1(f2.as_mut(), &mut cx).is_pending());
+            assert!(gate.running.get() == 2);
+            assert!(gate.peak.get() as u16 <= max_cap, "more handlers at once than max_receive");
+            vcover!(max_cap == 2, "two handlers at once with cap 2");
+        } else {
+            // the reader is parked; the first handler finishes
+            let before = wakes.get();
+            gate.open.set(true);
+            assert!(poll1(f1.as_mut(), &mut cx).is_ready());
+            assert!(gate.running.get() == 0);
+            assert!(wakes.get() > before, "handler finished, parked reader not woken");
+            assert!(poll1(r2.as_mut(), &mut cx).is_ready(), "reading does not resume after the handler finished");
+            vcover!(max_cap == 1, "cap-limited, resumed");
+            vcover!(max_cap == 2 && max_size != 0, "size-limited, resumed");
+        }
+    }
+}
+
+vharness! {
+    //@ props: C12
+    //@ tier: quick
+    //@ functions: inflight::InFlightServiceImpl::{ready, call} (streaming bypass: the `publish` flag), Counter
+    //@ bounds: max_cap = 1; a PUBLISH whose handler is gated, followed by 0..=3 payload chunks, readiness polled before each; sizes full width
+    //@ assumes: wrapped service always ready; one caller
+    //@ desc: while a payload is being streamed the remaining chunks are never held back by the limit (readiness stays true before every chunk, chunks are delivered), although the handler that reads them is the one occupying the limit
+    fn ct_gate_stream() unwind(5) {
+        let max_size = vk::any_usize();
+        let gate = new_gate();
+        let p = Pipeline::new(InFlightServiceImpl::new(1, max_size, GateSvc(gate.clone())));
+        let wakes: &'static Cell<u32> = Box::leak(Box::new(Cell::new(0)));
+        let waker = counting_waker(wakes);
+        let mut cx = Context::from_waker(&waker);
+        let mut f1 = std::pin::pin!(p.call(Req { kind: Kind::Publish, size: vk::any_u32() }));
+        assert!(poll1(f1.as_mut(), &mut cx).is_pending());
+        assert!(gate.running.get() == 1);
+        let n = vk::any_len(3);
+        let mut i = 0;
+        while i < n {
+            {
+                let mut r = std::pin::pin!(p.ready::<Req>());
+                assert!(poll1(r.as_mut(), &mut cx).is_ready(), "payload chunk held back by the receive limit");
+            }
+            let mut c = std::pin::pin!(p.call(Req { kind: Kind::Chunk, size: 0 }));
+            assert!(poll1(c.as_mut(), &mut cx).is_ready(), "payload chunk not delivered");
+            i += 1;
+        }
+        vcover!(n == 3, "three chunks");
+    }
+}
+
+vharness! {
+    //@ props: C12
+    //@ tier: quick
+    //@ functions: inflight::InFlightServiceImpl::{ready, call} (the `publish` flag), Counter
+    //@ bounds: max_cap = 1, no size limit; two PUBLISH packets back to back (no chunks in between), first handler gated
+    //@ assumes: wrapped service always ready; one caller
+    //@ finding: known K3: `ready()` bypasses the counter while the `publish` flag is set, and `call()` sets it for EVERY publish (SizedRequest::is_publish is true for complete publishes too): the packet after a publish is never gated, so a burst of publishes runs more handlers at once than max_receive
+    //@ desc: documents the recorded finding K3: with max_receive = 1 and a first publish handler still running, reading must stop before the second PUBLISH
+    fn ct_gate_publish_burst() unwind(4) {
+        let gate = new_gate();
+        let p = Pipeline::new(InFlightServiceImpl::new(1, 0, GateSvc(gate.clone())));
+        let wakes: &'static Cell<u32> = Box::leak(Box::new(Cell::new(0)));
+        let waker = counting_waker(wakes);
+        let mut cx = Context::from_waker(&waker);
+        let mut f1 = std::pin::pin!(p.call(Req { kind: Kind::Publish, size: vk::any_u32() }));
+        assert!(poll1(f1.as_mut(), &mut cx).is_pending());
+        let mut r2 = std::pin::pin!(p.ready::<Req>());
+        let ready2 = poll1(r2.as_mut(), &mut cx).is_ready();
+        if ready2 {
+            let mut f2 = std::pin::pin!(p.call(Req { kind: Kind::Publish, size: vk::any_u32() }));
+            let _ = poll1(f2.as_mut(), &mut cx);
+            assert!(gate.peak.get() <= 1, "more publish handlers at once than max_receive");
+        }
+        vcover!(!ready2, "second publish held back");
+        vcover!(ready2, "second publish admitted");
+    }
+}
